@@ -11,7 +11,7 @@ RULE = ("generated definitions in which most tasks carry a retry policy (count 0
         "reports; non-trivial = at least one retried attempt; distinct = (definition, history) digest")
 ASSUMPTIONS = ASSUME_SIM + ["only upper bounds are asserted: the property states no obligation to retry"]
 
-PR = dict(p_retry=0.7, p_retry_cmd=0.08, p_items=0.12, p_expr_count=0.3)
+PR = dict(p_retry=0.7, p_retry_cmd=0.08, p_items=0.12, p_expr_count=0.3, p_join=0.25, p_loop_count_changes=0.6)
 
 
 def nontrivial(run, m):
